@@ -1,5 +1,6 @@
 import Verif.Gen.Versions
 import Verif.Lemmas.Batching
+import Verif.Lemmas.StdioIn
 
 /-! # C13 — batches are accepted exactly for protocol versions older than 2025-06-18
 
@@ -122,5 +123,116 @@ theorem c13_mode_follows_last_version (init : Option (List Char)) (sets : List (
 example : modeAfter none [some "2024-11-05".toList, some "2025-06-18".toList] = false
     ∧ modeAfter none [some "2025-06-18".toList, some "2025-03-26".toList] = true := by
   decide
+
+/-! ## Transport part (stdio reader, `Model/StdioIn.lean`)
+
+`cfg.parse` is the library's parser as a parameter: a stripped line is junk, one message, or a
+JSON array with, per member, the message `parse_message` returns or `none` when it raises.  All
+statements are for every parser, every version (string or `None`), every batch of any length,
+every stream and every chunking of it. -/
+section transport
+open Verif.Model.StdioIn Verif.Lemmas.StdioIn
+variable {μ : Type}
+
+/-- the reader after a handshake at version `v` -/
+def negotiated (v : Option (List Char)) : St := { init with batching := supportsBatching v }
+
+/-- What the reader does with a stream of complete lines received after `set_protocol_version(v)`,
+for every chunking: line by line, in the mode decided by `v`. -/
+theorem c13_reader_after_handshake (cfg : Cfg μ) (v : Option (List Char)) (items : List Item)
+    (chunks : List (List Nat)) (hi : ∀ it ∈ items, ValidItem it)
+    (hc : chunks.flatten = encode (render items)) :
+    (run cfg init (.setVersion v :: chunks.map Ev.chunk)).2
+      = items.flatMap (fun it => processLine cfg (supportsBatching v) it.text) := by
+  rw [run_setVersion]
+  have := run_items cfg (supportsBatching v) items chunks hi hc
+  simp only [init] at this ⊢
+  rw [this]
+
+/-- **Without batching: one −32600 error, nothing delivered.**  At a version that does not support
+batching a JSON array line — whatever its members, valid or not, even empty — produces exactly one
+rejection written back and no delivery and no notification offer. -/
+theorem c13_reject_single_error_no_delivery (cfg : Cfg μ) (v : Option (List Char)) (line : List Nat)
+    (ms : List (Option μ)) (hv : supportsBatching v = false) (hne : strip line ≠ [])
+    (hp : cfg.parse (strip line) = .batch ms) :
+    processLine cfg (supportsBatching v) line = [.reject]
+    ∧ delivered (processLine cfg (supportsBatching v) line) = []
+    ∧ offered (processLine cfg (supportsBatching v) line) = []
+    ∧ rejections (processLine cfg (supportsBatching v) line) = 1 := by
+  have : processLine cfg (supportsBatching v) line = [.reject] := by
+    simp [processLine, hne, hp, hv]
+  simp [this, delivered, offered, rejections]
+
+/-- **With batching: every member the parser accepts is delivered, in order**, id-less members are
+also offered on the notification stream, and nothing is written back. -/
+theorem c13_accept_delivers_members (cfg : Cfg μ) (v : Option (List Char)) (line : List Nat)
+    (ms : List (Option μ)) (hv : supportsBatching v = true) (hne : strip line ≠ [])
+    (hp : cfg.parse (strip line) = .batch ms) :
+    delivered (processLine cfg (supportsBatching v) line) = ms.filterMap id
+    ∧ offered (processLine cfg (supportsBatching v) line) = (ms.filterMap id).filter cfg.isNotif
+    ∧ rejections (processLine cfg (supportsBatching v) line) = 0 := by
+  have : processLine cfg (supportsBatching v) line = ms.flatMap (routeMember cfg) := by
+    simp [processLine, hne, hp, hv]
+  rw [this]
+  exact ⟨members_delivered cfg ms, members_offered cfg ms, members_rejections cfg ms⟩
+
+/-- **An invalid member is dropped alone**: a batch with a rejected member anywhere is processed
+exactly as the batch without that member. -/
+theorem c13_bad_member_isolated (cfg : Cfg μ) (a b : List (Option μ)) :
+    (a ++ none :: b).flatMap (routeMember cfg) = (a ++ b).flatMap (routeMember cfg)
+    ∧ delivered ((a ++ none :: b).flatMap (routeMember cfg)) = a.filterMap id ++ b.filterMap id := by
+  constructor
+  · simp [List.flatMap_append, List.flatMap_cons, routeMember]
+  · rw [members_delivered]; simp [List.filterMap_append]
+
+/-- A single message line is untouched by the mode: delivered at every version. -/
+theorem c13_single_messages_unaffected (cfg : Cfg μ) (b₁ b₂ : Bool) (line : List Nat) (m : μ)
+    (hp : cfg.parse (strip line) = .single m) :
+    processLine cfg b₁ line = processLine cfg b₂ line := by
+  simp [processLine, hp]
+
+/-- **Version changes mid-connection.**  Lines received before a `set_protocol_version` are
+processed in the old mode, lines received after it in the new one; with `c13_mode_follows_last_version`
+the mode is always that of the last version set. -/
+theorem c13_version_change_mid_connection (cfg : Cfg μ) (v₁ v₂ : Option (List Char))
+    (items₁ items₂ : List Item) (ch₁ ch₂ : List (List Nat))
+    (h₁ : ∀ it ∈ items₁, ValidItem it) (h₂ : ∀ it ∈ items₂, ValidItem it)
+    (hc₁ : ch₁.flatten = encode (render items₁)) (hc₂ : ch₂.flatten = encode (render items₂)) :
+    (run cfg init (.setVersion v₁ :: ch₁.map Ev.chunk ++ .setVersion v₂ :: ch₂.map Ev.chunk)).2
+      = items₁.flatMap (fun it => processLine cfg (supportsBatching v₁) it.text)
+        ++ items₂.flatMap (fun it => processLine cfg (supportsBatching v₂) it.text) := by
+  rw [show (Ev.setVersion v₁ :: ch₁.map Ev.chunk ++ Ev.setVersion v₂ :: ch₂.map Ev.chunk)
+      = (Ev.setVersion v₁ :: ch₁.map Ev.chunk) ++ (Ev.setVersion v₂ :: ch₂.map Ev.chunk) by simp]
+  have e1 : run cfg init (.setVersion v₁ :: ch₁.map Ev.chunk)
+      = ({ init with batching := supportsBatching v₁ },
+         items₁.flatMap (fun it => processLine cfg (supportsBatching v₁) it.text)) := by
+    rw [run_setVersion]; exact run_items cfg (supportsBatching v₁) items₁ ch₁ h₁ hc₁
+  have e2 : run cfg { init with batching := supportsBatching v₁ } (.setVersion v₂ :: ch₂.map Ev.chunk)
+      = ({ init with batching := supportsBatching v₂ },
+         items₂.flatMap (fun it => processLine cfg (supportsBatching v₂) it.text)) := by
+    rw [run_setVersion]; exact run_items cfg (supportsBatching v₂) items₂ ch₂ h₂ hc₂
+  rw [run_append, e1]
+  simp only
+  rw [e2]
+
+/-! Non-vacuity: a parser that knows one batch line `[..]` with members (valid, invalid, valid
+notification); the same bytes before and after the cutoff version. -/
+def exCfg : Cfg Nat :=
+  { parse := fun s => if s = [91, 49, 93] then .batch [some 1, none, some 2] else .junk,
+    isNotif := fun m => m = 2 }
+
+example : (run exCfg init [.setVersion (some "2025-06-18".toList), .chunk [91, 49], .chunk [93, 13, 10]]).2 = [.reject] := by
+  decide
+
+example : (run exCfg init [.setVersion (some "2025-03-26".toList), .chunk [91, 49], .chunk [93, 13, 10]]).2
+    = [.deliver 1, .notify 2, .deliver 2] := by
+  decide
+
+example : (run exCfg init [.chunk [91, 49, 93, 10], .setVersion (some "2025-06-18".toList), .chunk [91, 49, 93, 10],
+    .setVersion (some "2024-11-05".toList), .chunk [91, 49, 93, 10]]).2
+    = [.deliver 1, .notify 2, .deliver 2, .reject, .deliver 1, .notify 2, .deliver 2] := by
+  decide
+
+end transport
 
 end Verif.Props.C13
